@@ -720,15 +720,6 @@ class SymtabK(Kind):
         return "o=%d" % x["_sb"]["o"]
 
 
-def member_dt(rng, allow_nested=True, depth=0):
-    """a member datatype the decoder can delimit: fixed, float, or a nested version-3 compound"""
-    r = rng.random()
-    if allow_nested and depth < 2 and r < 0.15:
-        return {"class": 6, "version": 3, "size": rng.choice([4, 12, 40]), "cbf": 0, "props": gen_compound_v3_props(rng, depth + 1).hex()}
-    cls, size, cbf = gen_simple_dt(rng)
-    return {"class": cls, "version": 1, "size": size, "cbf": cbf, "props": py_numeric_props(cls, size, cbf).hex()}
-
-
 def greedy_dt(rng):
     cls = rng.choice([3, 3, 7, 5])
     if cls == 3:
@@ -738,9 +729,64 @@ def greedy_dt(rng):
     return {"class": 5, "version": 1, "size": 16, "cbf": 8, "props": rbytes(rng, 8, True).hex()}
 
 
+def sd_leaf(rng):
+    """a leaf member type whose end the decoder finds: fixed-point, float, bitfield (4 property bytes), time (2)"""
+    r = rng.random()
+    if r < 0.08:
+        return {"class": 4, "version": 1, "size": rng.choice([1, 4]), "cbf": rng.choice([0, 1]), "props": rbytes(rng, 4).hex()}
+    if r < 0.14:
+        return {"class": 2, "version": 1, "size": 4, "cbf": 0, "props": rbytes(rng, 2).hex()}
+    cls, size, cbf = gen_simple_dt(rng)
+    return {"class": cls, "version": 1, "size": size, "cbf": cbf, "props": py_numeric_props(cls, size, cbf).hex()}
+
+
+def py_member_hdr(dt):
+    return (le(4, dt["class"] | (dt["version"] << 4) | ((dt["cbf"] << 8) & 0xFFFFFFFF)) + le(4, dt["size"])
+            + bytes.fromhex(dt["props"]))
+
+
+def tree_flat_dt(t):
+    """member type of a tree node -> the DatatypeMessage (dict) handed to the Go encoder"""
+    if "leaf" in t:
+        return t["leaf"]
+    c = t["comp"]
+    fs = [dict(name=f["name"], offset=f["offset"], dt=tree_flat_dt(f["t"])) for f in c["fields"]]
+    out = b"" if c["version"] == 1 else le(4, len(fs))
+    for f in fs:
+        nm = bytes.fromhex(f["name"])
+        if c["version"] == 1:
+            out += nm + bytes((len(nm) + 8) // 8 * 8 - len(nm)) + le(4, f["offset"]) + bytes(28) + py_member_hdr(f["dt"])
+        else:
+            out += nm + b"\0" + le(4, f["offset"]) + py_member_hdr(f["dt"])
+    return {"class": 6, "version": c["version"], "size": c["size"], "cbf": len(fs) if c["version"] == 1 else 0, "props": out.hex()}
+
+
+def gen_tree(rng, ver, depth, sd_only, n=None):
+    """a compound tree in the grammar of wf_ctype: every member but the last self-delimiting (fixed-point / float /
+    bitfield / time leaf, or a version-3 compound of such members); the last member anything well-formed unless sd_only"""
+    n = n or rng.choice([1, 1, 2, 3, 3, 4, 8] if depth == 0 else [1, 2, 3])
+    fields, off = [], 0
+    for k in range(n):
+        nl = rng.choice([1, 1, 2, 6, 7, 8, 9, 15, 16, 17, 40])
+        last = (k == n - 1)
+        r = rng.random()
+        if depth < 2 and r < 0.2:
+            t = dict(comp=gen_tree(rng, 3, depth + 1, sd_only or not last))
+        elif last and not sd_only and depth < 2 and r < 0.3:
+            t = dict(comp=gen_tree(rng, 1, depth + 1, False))
+        elif last and not sd_only and r < 0.55:
+            t = dict(leaf=greedy_dt(rng))
+        else:
+            t = dict(leaf=sd_leaf(rng))
+        fields.append(dict(name=rbytes(rng, nl, nonzero=True).hex(), offset=(off & 0xFFFFFFFF) if rng.random() < 0.9 else pick_u32(rng), t=t))
+        off += tree_flat_dt(t)["size"] if depth == 0 else rng.choice([1, 4, 8])
+    return dict(version=ver, size=rng.choice([off or 1, off or 1, 1, (1 << 32) - 1]) & 0xFFFFFFFF or 1, fields=fields)
+
+
 class CompoundK(Kind):
+    """compound datatypes as trees (Model/CodecCompoundTree.v): theorem C11_compound_roundtrip"""
     name = "compound"
-    imports = "Model.CodecType Model.CodecCompound"
+    imports = "Model.CodecType Model.CodecCompound Model.CodecCompoundTree"
     greedy_inside = False
 
     def __init__(self):
@@ -748,30 +794,40 @@ class CompoundK(Kind):
 
     def gen(self, rng, i):
         ver = 3 if i % 3 else 1
-        n = rng.choice([1, 1, 2, 3, 4, 8])
-        fields, off = [], 0
-        for k in range(n):
-            nl = rng.choice([1, 1, 2, 6, 7, 8, 9, 15, 16, 17, 40])
-            dt = member_dt(rng, allow_nested=(ver == 3))
-            fields.append(dict(name=rbytes(rng, nl, nonzero=True).hex(), offset=off, dt=dt))
-            off += dt["size"]
+        tree = gen_tree(rng, ver, 0, False, n=[1, 2, 16][i] if i < 3 else None)
         if self.greedy_inside:
-            fields.insert(rng.randrange(0, len(fields)), dict(name=rbytes(rng, 3, True).hex(), offset=off, dt=greedy_dt(rng)))
-        elif rng.random() < 0.3:
-            fields.append(dict(name=rbytes(rng, 2, True).hex(), offset=off, dt=greedy_dt(rng)))     # last: harmless
-        return dict(version=ver, size=rng.choice([off or 1, 1, (1 << 32) - 1]), fields=fields)
+            fs = tree["fields"]
+            fs.insert(rng.randrange(0, len(fs)), dict(name=rbytes(rng, 3, True).hex(), offset=0, t=dict(leaf=greedy_dt(rng))))
+        return self.of_tree(tree)
+
+    def of_tree(self, tree):
+        return dict(version=tree["version"], size=tree["size"], _tree=tree,
+                    fields=[dict(name=f["name"], offset=f["offset"], dt=tree_flat_dt(f["t"])) for f in tree["fields"]])
 
     def invalid(self, rng):
-        ok = self.gen(rng, 1)
-        return [dict(ok, fields=[]), dict(ok, size=0), dict(ok, fields=[dict(ok["fields"][0], name="")])]
+        ok = self.gen(rng, 1)["_tree"]
+        return [self.of_tree(dict(ok, fields=[])), self.of_tree(dict(ok, size=0)),
+                self.of_tree(dict(ok, fields=[dict(ok["fields"][0], name="")]))]
 
+    def coq_fields(self, fs):
+        out = "CNil"
+        for f in reversed(fs):
+            out = "(CCons %s %s %s %s)" % (cbytes(f["name"]), cn(f["offset"]), self.coq_t(f["t"]), out)
+        return out
+    def coq_t(self, t):
+        if "leaf" in t:
+            return "(CLeaf %s)" % self.dtk.coq(t["leaf"])
+        c = t["comp"]
+        return "(CComp %d %s %s)" % (c["version"], cn(c["size"]), self.coq_fields(c["fields"]))
     def coq(self, x):
-        fs = cl("{| fd_name := %s; fd_offset := %s; fd_type := %s |}" % (cbytes(f["name"]), cn(f["offset"]), self.dtk.coq(f["dt"])) for f in x["fields"])
-        return "{| cp_version := %d; cp_size := %s; cp_fields := %s |}" % (x["version"], cn(x["size"]), fs)
+        t = x["_tree"]
+        return "%d %s %s" % (t["version"], cn(t["size"]), self.coq_fields(t["fields"]))
     def enc_expr(self, x):
-        return "enc_compound " + self.coq(x)
+        return "enc_compound (to_compound %s)" % self.coq(x)
     def encok_expr(self, x):
-        return "encok_compound " + self.coq(x)
+        return "encok_compound (to_compound %s)" % self.coq(x)
+    def wf_expr(self, x):
+        return "wf_ctype (CComp %s)" % self.coq(x)
     def dec_expr(self, hexs, sb):
         return "oval val_compound' (dec_compound %s)" % cbytes(hexs)
     def proj(self, x):
@@ -781,12 +837,39 @@ class CompoundK(Kind):
         return "v=%d,n=%d,classes=%s" % (x["version"], len(x["fields"]), "".join(str(f["dt"]["class"]) for f in x["fields"]))
 
 
+class CompoundTreeK(CompoundK):
+    """the same values read back recursively (ParseCompoundType on every member of class compound, as the dataset
+    reader does): theorem C11_compound_nested_roundtrip"""
+    name = "compoundtree"
+    label = "compound_nested"
+
+    def invalid(self, rng):
+        return []
+    def dec_expr(self, hexs, sb):
+        return "oval val_ctype (dec_compound_tree %s)" % cbytes(hexs)
+    def proj_t(self, t):
+        if "leaf" in t:
+            d = t["leaf"]
+            return [0, [d["class"], d["version"], d["size"], d["cbf"], d["props"]]]
+        c = t["comp"]
+        return [1, c["version"], c["size"], [[f["name"], f["offset"], self.proj_t(f["t"])] for f in c["fields"]]]
+    def proj(self, x):
+        return self.proj_t(dict(comp=x["_tree"]))
+    def shape(self, x):
+        def d(t):
+            return 0 if "leaf" in t else 1 + max(d(f["t"]) for f in t["comp"]["fields"])
+        return "v=%d,n=%d,depth=%d" % (x["version"], len(x["fields"]), d(dict(comp=x["_tree"])))
+
+
 class CompoundGreedy(CompoundK):
-    """a member of a class whose extent the decoder cannot determine (string, reference, opaque) before the last member"""
+    """a member of a class whose extent the decoder cannot determine (string, reference, opaque) before the last
+    member: the model's wf_ctype must reject every such value"""
     label = "compound_greedy_member"
     greedy_inside = True
     def invalid(self, rng):
         return []
+    def wf_expr(self, x):
+        return "negb (wf_ctype (CComp %s))" % self.coq(x)
 
 
 class ArrayK(Kind):
@@ -894,7 +977,7 @@ class FilterPipeK(Kind):
 
 
 KINDS = [Dataspace(), Layout(), DatatypeK(), DatatypeVlen(), AttributeK(), SuperblockK(), OhdrV2(), OhdrV1(),
-         LinkK(), Link2K(), LinkInfoK(), AttrInfoK(), SymtabK(), CompoundK(), CompoundGreedy(), ArrayK(), EnumK(), FilterPipeK()]
+         LinkK(), Link2K(), LinkInfoK(), AttrInfoK(), SymtabK(), CompoundK(), CompoundTreeK(), CompoundGreedy(), ArrayK(), EnumK(), FilterPipeK()]
 
 # kinds whose encoder/decoder pair is known not to round-trip: id of the KNOWN_FINDINGS entry
 KNOWN_ROUNDTRIP = {"ohdr_v1": "C11-ohdr-v1-size-field",            # only when the probe finds the unrepaired size field
